@@ -174,7 +174,7 @@ func ruleXZReaderChecks(c *Ctx, r *Report, prefix string) {
 					continue
 				}
 				fa, ok := st.Addr.(*ssa.FieldAddr)
-				if !ok || fieldOfAddr(fa) == nil || fieldOfAddr(fa).Name() != "indexSize" {
+				if !ok || fieldOfAddr(fa) == nil || refNameOf(fieldOfAddr(fa)) != "indexSize" {
 					continue
 				}
 				if t := staticTerm(c, st.Val, uint32LE); normTerm(t) == normTerm("(shl (+ (call xz.uint32LE (slice $data 4:)) 1) 2)") {
@@ -188,7 +188,7 @@ func ruleXZReaderChecks(c *Ctx, r *Report, prefix string) {
 		for _, b := range theCtx.GB(fn) {
 			for _, ins := range b.Instrs {
 				if st, ok := ins.(*ssa.Store); ok {
-					if fa, ok := st.Addr.(*ssa.FieldAddr); ok && fieldOfAddr(fa) != nil && fieldOfAddr(fa).Name() == "flags" && roleByte(data, 9)(st.Val) {
+					if fa, ok := st.Addr.(*ssa.FieldAddr); ok && fieldOfAddr(fa) != nil && refNameOf(fieldOfAddr(fa)) == "flags" && roleByte(data, 9)(st.Val) {
 						flagsStored = true
 					}
 				}
